@@ -15,7 +15,7 @@
     Both end the sender's task; they differ in what the entrypoint still runs (C17/C18) and in
     how a held server is given back (see [eff]).
 
-    Source: /repo/src at the commit the check runs against (file:line are those of 68af9b4). *)
+    Source: /repo/src at the commit the check runs against (file:line are those of fc66d7a). *)
 From Coq Require Import ZArith NArith List Bool Lia.
 Import ListNotations.
 Local Open Scope Z_scope.
@@ -448,20 +448,18 @@ Definition forward (pre : list eff) (intx : bool) (c : cstate) (held : pstate) (
   | z :: obs' => let '(nx, e) := after_reply intx false c z in SDone nx (pre ++ FxToServer :: e) [z] obs' rest
   end.
 
-(** Sync: walk the extended-protocol buffer (client.rs:1403-1498). *)
-Fixpoint sync_walk (cache : bool) (nm : list bytes) (xs : list xitem) (fwd : bool) (q : list eff)
-  : option (list bytes * bool * list eff) :=
+(** Sync: walk the extended-protocol buffer (client.rs:1455-1545).  Since f56a2eb / 80b6794 a
+    buffered Bind / Describe carries the statement its name meant when it ARRIVED, and a Close
+    forgot its name when it arrived: the walk cannot fail any more and does not touch the
+    client's name map; a Close of a named statement (caching on) is answered by the pooler. *)
+Fixpoint sync_walk (cache : bool) (xs : list xitem) (fwd : bool) (q : list eff) : bool * list eff :=
   match xs with
-  | [] => Some (nm, fwd, q)
-  | XParse :: r => sync_walk cache nm r true q
-  | XExec :: r => sync_walk cache nm r true q
-  | XBind None :: r | XDesc None :: r => sync_walk cache nm r true q
-  | XBind (Some n) :: r | XDesc (Some n) :: r =>
-    if mem_bytes n nm then sync_walk cache nm r true q else None          (* ensure_prepared_statement_is_on_server: Err *)
+  | [] => (fwd, q)
+  | XParse :: r | XExec :: r | XBind _ :: r | XDesc _ :: r => sync_walk cache r true q
   | XClose k n :: r =>
     if cache && (k =? 83)%N && negb (match n with [] => true | _ => false end)
-    then sync_walk cache (remove_bytes n nm) r fwd (q ++ [FxReply RQueued])
-    else sync_walk cache nm r true q
+    then sync_walk cache r fwd (q ++ [FxReply RQueued])
+    else sync_walk cache r true q
   end.
 
 Definition set_x (c : cstate) (x : list xitem) : cstate := mkC (names c) x (ph c) (dlen c).
@@ -504,9 +502,14 @@ Definition buffer_describe (o : opts) (c : cstate) (body : bytes) : bres :=
        | _ => BPanic
        end.
 
-Definition buffer_close (c : cstate) (body : bytes) : bres :=
+(* Close: decoded in both loops; forget_closed_statement (client.rs:1945-1949, 80b6794) takes a
+   named statement out of the client's map WHEN THE CLOSE ARRIVES *)
+Definition buffer_close (o : opts) (c : cstate) (body : bytes) : bres :=
   match dec_target_name body with
-  | Ok (k, name) => BOk (push_x c (XClose k name))
+  | Ok (k, name) =>
+    let c1 := if o_cache o && (k =? 83)%N && negb (match name with [] => true | _ => false end)
+              then set_names c (remove_bytes name (names c)) else c in
+    BOk (push_x c1 (XClose k name))
   | _ => BPanic
   end.
 
@@ -536,14 +539,12 @@ Definition txn_msg (o : opts) (copy ext intx : bool) (c : cstate) (pre : list ef
   else if (code =? 66)%N then of_b (buffer_bind o c body)                  (* 'B' *)
   else if (code =? 68)%N then of_b (buffer_describe o c body)              (* 'D' *)
   else if (code =? 69)%N then done_local (stay (push_x c XExec)) pre obs rest   (* 'E' *)
-  else if (code =? 67)%N then of_b (buffer_close c body)                   (* 'C' *)
+  else if (code =? 67)%N then of_b (buffer_close o c body)                   (* 'C' *)
   else if (code =? 83)%N then                                              (* 'S' *)
     if copy then done_local held pre obs rest                              (* dropped while in COPY (client.rs:1360, de03604) *)
     else
-    match sync_walk (o_cache o) (names c) (xbuf c) false [] with
-    | None => dropped HErr
-    | Some (nm, fwd, q) =>
-      let c' := mkC nm [] (ph c) 0 in
+    let '(fwd, q) := sync_walk (o_cache o) (xbuf c) false [] in
+      let c' := mkC (names c) [] (ph c) 0 in
       if fwd || (0 <? dlen c) then
         match obs with
         | [] => SDone (NBlocked (stay c')) (pre ++ q ++ [FxToServer]) [] [] rest
@@ -556,7 +557,6 @@ Definition txn_msg (o : opts) (copy ext intx : bool) (c : cstate) (pre : list ef
         if negb intx
         then done_z (NCont (Idle c')) (pre ++ q ++ [FxReply (RLocalZ z); FxRelease]) z obs rest
         else done_z (NCont (stay c')) (pre ++ q ++ [FxReply (RLocalZ z)]) z obs rest
-    end
   else if (code =? 100)%N then                                             (* 'd' *)
     let total := dlen c + len + 1 in
     if 8196 <? total then done_local (stay (set_dlen c 0)) (pre ++ [FxToServer]) obs rest
@@ -627,7 +627,7 @@ Definition idle_msg (o : opts) (c : cstate) (code : byte) (len : Z) (body : byte
       else of_b (buffer_bind o c body)
     else if (code =? 68)%N then of_b (buffer_describe o c body)
     else if (code =? 69)%N then done_local (Idle (push_x c XExec)) [] obs rest
-    else if (code =? 67)%N then of_b (buffer_close c body)
+    else if (code =? 67)%N then of_b (buffer_close o c body)
     else take c
   end.
 
